@@ -1,4 +1,6 @@
 import SC.Proofs.SrcBase
+import SC.Gen.Src.str_Compare
+import SC.Gen.Src.str_clamp
 /-!
 `strcase.Compare` on the regenerated program text: the byte loop (`for i := 0; i < len(s) && i < len(t); i++`) with its three exits
 (`clamp(len(s)-len(t))`, the `_lower` comparison, the jump to the rune loop), by a loop invariant over interpreter frames.
@@ -8,8 +10,12 @@ invariant: the whole function, for all byte strings.
 namespace GoSsa.Str
 open GoSsa Gen.Src Utf8
 
+section
+-- the program the function lives in: any program whose `clamp` is the regenerated one
+variable (p : Prog) (hfc : p.find? (fun fn => fn.name == "clamp") = some str_clamp)
+
 theorem clamp_run (n : Int) (h : Heap) (fuel : Nat) (hf : 6 ≤ fuel) :
-    run P false fuel (Frame.entry str_clamp [.int n]) h = .ok [.int (Utf8.clamp n)] h := by
+    run p false fuel (Frame.entry str_clamp [.int n]) h = .ok [.int (Utf8.clamp n)] h := by
   obtain ⟨m, rfl⟩ : ∃ m, fuel = m + 6 := ⟨fuel - 6, by omega⟩
   rw [Frame.entry]
   by_cases h1 : n < 0
@@ -55,15 +61,16 @@ theorem bi_clamp_none (a h) : builtin false "clamp" a h = none := nb_clamp a h
 macro "cmp_run" "[" ds:Lean.Parser.Tactic.simpLemma,* "]" : tactic =>
   `(tactic| src_run [str_Compare, str_Compare_b12, str_Compare_b13, str_Compare_b14, str_Compare_b15, str_Compare_b16, str_Compare_b17, str_Compare_b18,
       str_Compare_b19, str_Compare_b20, str_Compare_b21, str_Compare_b22, str_Compare_b23, run_call_unfold, bi_DecodeRuneInString, bi_CaseFold,
-      bi_clamp_none, find_clamp, clamp_run, globalArr, lowerLoad, lowerLen, intOf, $ds,*])
+      bi_clamp_none, globalArr, lowerLoad, lowerLen, intOf, $ds,*])
 
+include hfc in
 set_option maxHeartbeats 4000000 in
 theorem cmp_runes (sb : Bytes) (h : Heap) (hlb : sb.length < 4611686018427387904) :
     ∀ (k pos : Nat) (tb : Bytes) (rt ot : Nat) (env : Array (List Val)), sb.length - pos ≤ k → pos ≤ sb.length →
       tb.length < 4611686018427387904 → env.size = 61 →
       env.getD 18 [] = [.iter sb pos] → env.getD 31 [] = [.str tb rt ot] →
       ∀ fuel, 40 * k + 40 ≤ fuel →
-      run P false fuel ⟨str_Compare, env, 12, [.next 32 (.r 18), .extract 33 (.r 32) 0], .cond (.r 33) 13 14⟩ h
+      run p false fuel ⟨str_Compare, env, 12, [.next 32 (.r 18), .extract 33 (.r 32) 0], .cond (.r 33) 13 14⟩ h
         = .ok [.int (A.cmpRunes Fold.caseFold k (sb.drop pos) tb)] h := by
   intro k
   induction k with
@@ -75,10 +82,10 @@ theorem cmp_runes (sb : Bytes) (h : Heap) (hlb : sb.length < 4611686018427387904
     rw [List.drop_length, cmpRunes_nil]
     obtain ⟨m, rfl⟩ : ∃ m, fuel = m + 20 := ⟨fuel - 20, by omega⟩
     cases tb with
-    | nil => cmp_run [hsz, h18, h31]
+    | nil => cmp_run [hfc, clamp_run p, hsz, h18, h31]
     | cons b t' =>
       have hl : ¬ ((t'.length : Int) + 1 = 0) := by omega
-      cmp_run [hsz, h18, h31, hl]
+      cmp_run [hfc, clamp_run p, hsz, h18, h31, hl]
   | succ k ih =>
     intro pos tb rt ot env hk hpos htl hsz h18 h31 fuel hf
     simp [hsz] at h18 h31
@@ -97,7 +104,7 @@ theorem cmp_runes (sb : Bytes) (h : Heap) (hlb : sb.length < 4611686018427387904
       | nil =>
         rw [cmpRunes_cons_nil _ _ _ hne]
         obtain ⟨m, rfl⟩ : ∃ m, fuel = m + 20 := ⟨fuel - 20, by omega⟩
-        cmp_run [hsz, h18, h31, hp, hnge]
+        cmp_run [hfc, clamp_run p, hsz, h18, h31, hp, hnge]
       | cons b t' =>
         have hk1 : b.toNat < 256 := b.toNat_lt
         have hk1' : (b.toNat : Int) < 256 := by omega
@@ -112,7 +119,7 @@ theorem cmp_runes (sb : Bytes) (h : Heap) (hlb : sb.length < 4611686018427387904
           by_cases e1 : (decodeRune (sb.drop pos)).1 = (lower b).toNat
           · obtain ⟨m, rfl⟩ : ∃ m, fuel = m + 18 := ⟨fuel - 18, by omega⟩
             have e1' : ((decodeRune (sb.drop pos)).1 : Int) = ((lower b).toNat : Int) := by rw [e1]
-            cmp_run [hsz, h18, h31, hp, hnge, hl, hl1, hk1, hk1', hb', hwl, e1']
+            cmp_run [hfc, clamp_run p, hsz, h18, h31, hp, hnge, hl, hl1, hk1, hk1', hb', hwl, e1']
             rw [ih (pos + (decodeRune (sb.drop pos)).2) t' rt (ot + 1) _ (by omega) (by omega) (by simp at htl; omega) (by simp [hsz]) (by simp [hsz])
               (by simp [hsz]) _ (by omega)]
             simp [e1]
@@ -126,7 +133,7 @@ theorem cmp_runes (sb : Bytes) (h : Heap) (hlb : sb.length < 4611686018427387904
             by_cases e2 : cf = (lower b).toNat
             · obtain ⟨m, rfl⟩ : ∃ m, fuel = m + 21 := ⟨fuel - 21, by omega⟩
               have e2' : ((cf : Nat) : Int) = ((lower b).toNat : Int) := by rw [e2]
-              cmp_run [hsz, h18, h31, hp, hnge, hl, hl1, hk1, hk1', hb', hwl, e1, e1s, e1', htu, hcf, hcb, e2, e2']
+              cmp_run [hfc, clamp_run p, hsz, h18, h31, hp, hnge, hl, hl1, hk1, hk1', hb', hwl, e1, e1s, e1', htu, hcf, hcb, e2, e2']
               rw [ih (pos + (decodeRune (sb.drop pos)).2) t' rt (ot + 1) _ (by omega) (by omega) (by simp at htl; omega) (by simp [hsz]) (by simp [hsz])
                 (by simp [hsz]) _ (by omega)]
             · have e2' : ¬ (((cf : Nat) : Int) = ((lower b).toNat : Int)) := by omega
@@ -135,7 +142,7 @@ theorem cmp_runes (sb : Bytes) (h : Heap) (hlb : sb.length < 4611686018427387904
               have hw2' : wrap .i64 ((lower b).toNat : Int) = ((lower b).toNat : Int) := wrap_i64_small _ (by omega) (by omega)
               have hw3' : wrap .i64 (((cf : Nat) : Int) - ((lower b).toNat : Int)) = ((cf : Nat) : Int) - ((lower b).toNat : Int) :=
                 wrap_i64_small _ (by omega) (by omega)
-              cmp_run [hsz, h18, h31, hp, hnge, hl, hl1, hk1, hk1', hb', hwl, e1, e1s, e1', htu, hcf, hcb, e2, e2', hw1', hw2', hw3']
+              cmp_run [hfc, clamp_run p, hsz, h18, h31, hp, hnge, hl, hl1, hk1, hk1', hb', hwl, e1, e1s, e1', htu, hcf, hcb, e2, e2', hw1', hw2', hw3']
         · have hb' : ¬ ((b.toNat : Int) < 128) := by
             intro x; apply hb; show b.toNat < 128; omega
           have hr2 := decodeRune_rune_lt (b :: t')
@@ -159,7 +166,7 @@ theorem cmp_runes (sb : Bytes) (h : Heap) (hlb : sb.length < 4611686018427387904
           by_cases e1 : (decodeRune (sb.drop pos)).1 = cq
           · obtain ⟨m, rfl⟩ : ∃ m, fuel = m + 18 := ⟨fuel - 18, by omega⟩
             have e1' : ((decodeRune (sb.drop pos)).1 : Int) = (cq : Int) := by rw [e1]
-            cmp_run [hsz, h18, h31, hp, hnge, hl, hl1, hk1, hk1', hb', htu1, htu2, hcf, hcq, hcb1, hcb2, e1, e1', hq2', htk]
+            cmp_run [hfc, clamp_run p, hsz, h18, h31, hp, hnge, hl, hl1, hk1, hk1', hb', htu1, htu2, hcf, hcq, hcb1, hcb2, e1, e1', hq2', htk]
             rw [ih (pos + (decodeRune (sb.drop pos)).2) _ rt (ot + (decodeRune (b :: t')).2) _ (by omega) (by omega) htl2 (by simp [hsz]) (by simp [hsz])
               (by simp [hsz]) _ (by omega)]
           · have e1' : ¬ (((decodeRune (sb.drop pos)).1 : Int) = (cq : Int)) := by omega
@@ -167,7 +174,7 @@ theorem cmp_runes (sb : Bytes) (h : Heap) (hlb : sb.length < 4611686018427387904
             by_cases e2 : cf = cq
             · obtain ⟨m, rfl⟩ : ∃ m, fuel = m + 21 := ⟨fuel - 21, by omega⟩
               have e2' : ((cf : Nat) : Int) = (cq : Int) := by rw [e2]
-              cmp_run [hsz, h18, h31, hp, hnge, hl, hl1, hk1, hk1', hb', htu1, htu2, hcf, hcq, hcb1, hcb2, e1, e1s, e1', hq2', htk, e2, e2']
+              cmp_run [hfc, clamp_run p, hsz, h18, h31, hp, hnge, hl, hl1, hk1, hk1', hb', htu1, htu2, hcf, hcq, hcb1, hcb2, e1, e1s, e1', hq2', htk, e2, e2']
               rw [ih (pos + (decodeRune (sb.drop pos)).2) _ rt (ot + (decodeRune (b :: t')).2) _ (by omega) (by omega) htl2 (by simp [hsz]) (by simp [hsz])
                 (by simp [hsz]) _ (by omega)]
             · have e2' : ¬ (((cf : Nat) : Int) = (cq : Int)) := by omega
@@ -177,17 +184,17 @@ theorem cmp_runes (sb : Bytes) (h : Heap) (hlb : sb.length < 4611686018427387904
               have hw2' : wrap .i64 ((cq : Nat) : Int) = ((cq : Nat) : Int) := wrap_i64_small _ (by omega) (by omega)
               have hw3' : wrap .i64 (((cf : Nat) : Int) - ((cq : Nat) : Int)) = ((cf : Nat) : Int) - ((cq : Nat) : Int) :=
                 wrap_i64_small _ (by omega) (by omega)
-              cmp_run [hsz, h18, h31, hp, hnge, hl, hl1, hk1, hk1', hb', htu1, htu2, hcf, hcq, hcb1, hcb2, e1, e1s, e1', hq2', htk, e2, e2s, e2',
+              cmp_run [hfc, clamp_run p, hsz, h18, h31, hp, hnge, hl, hl1, hk1, hk1', hb', htu1, htu2, hcf, hcq, hcb1, hcb2, e1, e1s, e1', hq2', htk, e2, e2s, e2',
                 hw1', hw2', hw3']
     · have hpe : pos = sb.length := by omega
       subst hpe
       rw [List.drop_length, cmpRunes_nil]
       obtain ⟨m, rfl⟩ : ∃ m, fuel = m + 20 := ⟨fuel - 20, by omega⟩
       cases tb with
-      | nil => cmp_run [hsz, h18, h31]
+      | nil => cmp_run [hfc, clamp_run p, hsz, h18, h31]
       | cons b t' =>
         have hl : ¬ ((t'.length : Int) + 1 = 0) := by omega
-        cmp_run [hsz, h18, h31, hl]
+        cmp_run [hfc, clamp_run p, hsz, h18, h31, hl]
 
 macro "cmpl_run" "[" ds:Lean.Parser.Tactic.simpLemma,* "]" : tactic =>
   `(tactic| src_run [str_Compare, str_Compare_b0, str_Compare_b1, str_Compare_b2, str_Compare_b3, str_Compare_b4, str_Compare_b5, str_Compare_b6,
@@ -195,12 +202,13 @@ macro "cmpl_run" "[" ds:Lean.Parser.Tactic.simpLemma,* "]" : tactic =>
       str_Compare_b15, str_Compare_b16, str_Compare_b17, str_Compare_b18, str_Compare_b19, str_Compare_b20, str_Compare_b21, str_Compare_b22,
       str_Compare_b23, $ds,*])
 
+include hfc in
 set_option maxHeartbeats 4000000 in
 theorem cmp_loop (s t : Bytes) (r0 o0 r1 o1 : Nat) (h : Heap) (hls : s.length < 4611686018427387904) (hlt : t.length < 4611686018427387904) :
     ∀ (d i : Nat) (env : Array (List Val)), s.length - i = d → i ≤ s.length → i ≤ t.length → env.size = 61 →
       (env.getD 0 [] = [.str s r0 o0]) → (env.getD 1 [] = [.str t r1 o1]) → (env.getD 11 [] = [.int i]) →
       ∀ fuel, 30 * d + 40 * s.length + 120 ≤ fuel →
-        run P false fuel ⟨str_Compare, env, 3, [.len 12 (.r 0), .bin 13 .lt .i64 (.r 11) (.r 12)], .cond (.r 13) 4 2⟩ h
+        run p false fuel ⟨str_Compare, env, 3, [.len 12 (.r 0), .bin 13 .lt .i64 (.r 11) (.r 12)], .cond (.r 13) 4 2⟩ h
         = .ok [.int (A.cmpAscii Fold.caseFold (s.drop i) (t.drop i))] h := by
   intro d
   induction d with
@@ -221,7 +229,7 @@ theorem cmp_loop (s t : Bytes) (r0 o0 r1 o1 : Nat) (h : Heap) (hls : s.length < 
         have : (t.drop s.length).length = t'.length + 1 := by rw [hdt]; rfl
         simp at this
         simp [A.cmpAscii]; congr 1; omega
-    src_run [str_Compare, str_Compare_b2, hsz, h0, h1, h11, hw, run_call_fn (hb := nb_clamp) (hf := find_clamp), clamp_run, hA]
+    src_run [str_Compare, str_Compare_b2, hsz, h0, h1, h11, hw, run_call_fn (hb := nb_clamp) (hf := hfc), clamp_run p, hA]
   | succ d ih =>
     intro i env hd hi hit hsz h0 h1 h11 fuel hf
     simp [hsz] at h0 h1 h11
@@ -280,7 +288,7 @@ theorem cmp_loop (s t : Bytes) (r0 o0 r1 o1 : Nat) (h : Heap) (hls : s.length < 
           simp only [A.cmpAscii, ne_eq, hna, not_false_eq_true, if_true, List.length_cons]
         rw [hA]
         obtain ⟨m, rfl⟩ : ∃ m, fuel = m + 16 := ⟨fuel - 16, by omega⟩
-        have hr := cmp_runes (s.drop i) h (by simp; omega) (s.drop i).length 0 (t.drop i) r1 (o1 + i)
+        have hr := cmp_runes p hfc (s.drop i) h (by simp; omega) (s.drop i).length 0 (t.drop i) r1 (o1 + i)
         simp only [str_Compare, str_Compare_b0, str_Compare_b1, str_Compare_b2, str_Compare_b3, str_Compare_b4, str_Compare_b5, str_Compare_b6,
           str_Compare_b7, str_Compare_b8, str_Compare_b9, str_Compare_b10, str_Compare_b11, str_Compare_b12, str_Compare_b13, str_Compare_b14,
           str_Compare_b15, str_Compare_b16, str_Compare_b17, str_Compare_b18, str_Compare_b19, str_Compare_b20, str_Compare_b21, str_Compare_b22,
@@ -302,15 +310,16 @@ theorem cmp_loop (s t : Bytes) (r0 o0 r1 o1 : Nat) (h : Heap) (hls : s.length < 
       rw [hdt]
       have hA : A.cmpAscii Fold.caseFold (s.drop i) [] = Utf8.clamp ((s.length : Int) - (t.length : Int)) := by
         rw [hds]; simp [A.cmpAscii]; congr 1; omega
-      src_run [str_Compare, str_Compare_b2, str_Compare_b4, hsz, h0, h1, h11, hlt1, hlt1', hit2, hit2', hw, run_call_fn (hb := nb_clamp) (hf := find_clamp), clamp_run, hA]
+      src_run [str_Compare, str_Compare_b2, str_Compare_b4, hsz, h0, h1, h11, hlt1, hlt1', hit2, hit2', hw, run_call_fn (hb := nb_clamp) (hf := hfc), clamp_run p, hA]
 
+include hfc in
 /-- `strcase.Compare`: the regenerated program text returns the algorithm model's value, for all byte strings shorter than 2^62 bytes -/
 theorem Compare (s t : Bytes) (r0 o0 r1 o1 : Nat) (h : Heap) (hls : s.length < 4611686018427387904) (hlt : t.length < 4611686018427387904) :
-    Ret P false str_Compare [.str s r0 o0, .str t r1 o1] h [.int (A.Compare (cfg false) s t)] h := by
+    Ret p false str_Compare [.str s r0 o0, .str t r1 o1] h [.int (A.Compare (cfg false) s t)] h := by
   refine ⟨70 * s.length + 121, fun fuel hf => ?_⟩
   obtain ⟨m, rfl⟩ : ∃ m, fuel = (70 * s.length + 120 + m) + 1 := ⟨fuel - (70 * s.length + 121), by omega⟩
   rw [Frame.entry]
-  have hl := cmp_loop s t r0 o0 r1 o1 h hls hlt s.length 0
+  have hl := cmp_loop p hfc s t r0 o0 r1 o1 h hls hlt s.length 0
   simp only [str_Compare, str_Compare_b0, str_Compare_b1, str_Compare_b2, str_Compare_b3, str_Compare_b4, str_Compare_b5, str_Compare_b6,
       str_Compare_b7, str_Compare_b8, str_Compare_b9, str_Compare_b10, str_Compare_b11, str_Compare_b12, str_Compare_b13, str_Compare_b14,
       str_Compare_b15, str_Compare_b16, str_Compare_b17, str_Compare_b18, str_Compare_b19, str_Compare_b20, str_Compare_b21, str_Compare_b22,
@@ -319,20 +328,11 @@ theorem Compare (s t : Bytes) (r0 o0 r1 o1 : Nat) (h : Heap) (hls : s.length < 4
   rw [hl _ (by omega) (by omega) (by omega) (by simp) (by simp) (by simp) (by simp) _ (by omega)]
   rfl
 
+include hfc in
 /-- corollary kept under its old name: ASCII-only arguments -/
 theorem Compare_ascii (s t : Bytes) (r0 o0 r1 o1 : Nat) (h : Heap) (hls : s.length < 4611686018427387904) (hlt : t.length < 4611686018427387904)
     (_hs : ∀ b ∈ s, b < 0x80) (_ht : ∀ b ∈ t, b < 0x80) :
-    Ret P false str_Compare [.str s r0 o0, .str t r1 o1] h [.int (A.Compare (cfg false) s t)] h := Compare s t r0 o0 r1 o1 h hls hlt
+    Ret p false str_Compare [.str s r0 o0, .str t r1 o1] h [.int (A.Compare (cfg false) s t)] h := Compare p hfc s t r0 o0 r1 o1 h hls hlt
 
-/-- `EqualFold(s, t) = Compare(s, t) == 0` -/
-theorem EqualFold_of_Compare (s t : Val) (h h' : Heap) (c : Int) (hC : Ret P false str_Compare [s, t] h [.int c] h') :
-    Ret P false str_EqualFold [s, t] h [.bool (decide (c = 0))] h' := by
-  obtain ⟨n, hn⟩ := hC
-  refine ⟨n + 3, fun fuel hf => ?_⟩
-  obtain ⟨m, rfl⟩ : ∃ m, fuel = m + 3 := ⟨fuel - 3, by omega⟩
-  have hC' := hn (m + 2) (by omega)
-  rw [Frame.entry]
-  src_run [str_EqualFold, str_EqualFold_b0, run_call_fn (hb := nb_Compare) (hf := find_Compare), hC']
-
-
+end
 end GoSsa.Str
